@@ -112,6 +112,12 @@ def _exercise(report, lab, lean, n_sets, seed):
                     job.update(mode="hold", steps=[{"name": vlib.to_snake(s["name"]), "stream": s["stream"]} for s in pj], empty_batches=(k % 2 == 0))
                 pyjobs.append(job)
                 pending.append((pj, vals, outp, dict(ctx, py_mode=job.get("mode", "lazy"))))
+                if variant == 1 or k == 0:
+                    # the same values written from a lazy producer that re-yields one object, updated in place between items
+                    outr = lab.tmp(".py-reuse.bin")
+                    pyjobs.append({"proto": pname, "infmt": "b", "outfmt": "b", "in": inp, "out": outr, "mode": "hold", "reuse": True,
+                                   "steps": [{"name": vlib.to_snake(s["name"]), "stream": s["stream"]} for s in pj]})
+                    pending.append((pj, vals, outr, dict(ctx, py_mode="lazy producer re-yielding one mutated object")))
     results = lab.run_py(pyjobs)
     for (pj, vals, outp, ctx), res in zip(pending, results):
         _judge(report, lab, lean, pj, vals, "py", res["rc"], res["exc"], outp, ctx, None, None, None)
